@@ -86,7 +86,7 @@ def main():
         os.makedirs(dst, exist_ok=True)
         if os.path.isdir(src):
             shutil.copy(f"{src}/patch.diff", f"{dst}/patch.diff")
-            shutil.copy(f"{src}/demo_test.go", f"{dst}/demo_test.go.txt")  # .txt: not compiled as part of any package
+            shutil.copy(f"{src}/demo_test.go", f"{dst}/demo_test.go")
             if os.path.exists(f"{src}/notes.md"):
                 shutil.copy(f"{src}/notes.md", f"{dst}/agent_notes.md")
             if os.path.exists(f"{src}/verify.log"):
@@ -109,7 +109,7 @@ def main():
             "caught_by": m["caught"],
             "missed_by": m["missed"],
             "strengthening": m["strengthened"],
-            "demonstration": "demo_test.go.txt (copy to <worktree>/demo/demo_test.go; go test -vet=off -count=1 ./demo/)",
+            "demonstration": "demo_test.go (copy to <worktree>/demo/demo_test.go; go test -vet=off -count=1 ./demo/)",
         }
         json.dump(meta, open(f"{dst}/meta.json", "w"), indent=1)
         print("kept", i, meta["confirmed_by_me"]["verdict"])
